@@ -221,6 +221,7 @@ func asCycleErr(err error) *graph.CircularDependencyError {
 func H_C05a_Deferred() {
 	n := vrt.Param("N", 3)
 	optionalDeps = vrt.Pick("optional", 0, 1) == 1
+	dupDeps = vrt.Pick("dup", 0, 1) == 1
 	out, _ := pickEdges(n)
 	m := &model{n: n}
 	g := graph.NewDependencyGraph()
@@ -249,6 +250,9 @@ func H_C05a_Deferred() {
 		checkPath(m, ce, "C05")
 	}
 	vrt.Assert(g.IsAcyclic() == !cyc, "C05.graph_isacyclic")
+	// the sort (the other place that reports "circular dependency") agrees
+	_, terr := g.TopologicalSort()
+	vrt.Assert((terr != nil) == cyc, "C05.graph_topo_disagrees", "TopologicalSort and DetectCycles disagree about the same graph: sort error =", terr, "cyclic =", cyc)
 }
 
 // H_C05a_Immediate: AddProvider one by one; each add is rejected iff it would
